@@ -17,7 +17,7 @@ single-threaded operation sequences.
 """
 import re
 
-from vlib import symexec
+from vlib import facts, symexec
 from vlib.symexec import Unrecognised, norm, show
 
 V = ('sym', 'v')
@@ -191,7 +191,7 @@ def check_fiber_method(ctx, fb, f, rule):
             # AtomicWait(T desired): _value(desired)
             if len(f.params) == 1:
                 ctx.instance(rule, key + '(ctor)')
-                inits = [x for x in f.raw.get('inits', []) if f.S[x['what']].endswith('::_value')]
+                inits = [x for x in f.raw.get('inits', []) if facts.canon_field(f.S[x['what']]).endswith('::_value')]
                 ok = False
                 if inits:
                     s = FiberSum(fb, f)
